@@ -64,8 +64,20 @@ def run(ctx):
     core.lean_phase(ctx)
     rng = ctx.rng
     reqs, metas = [], []
+
+    def flush():
+        outs = ctx.driver.run(reqs) if reqs else []
+        for req, (op, replay, exp), out in zip(reqs, metas, outs):
+            ctx.count("model_requests")
+            ctx.count("op:" + op)
+            if out.get("ok", out) != exp:
+                ctx.mismatch(op, replay, exp, out)
+        del reqs[:], metas[:]
+
     fam = schemas.family()
     for si in range(ctx.budget(10, 40)):
+        if len(reqs) >= 15000:
+            flush()     # keep memory bounded in long runs
         info = fam[si % len(fam)] if si < len(fam) or rng.random() < 0.5 else schemas.random_schema(rng)
         schema = info.schema
         ctx.driver.add_schema(info)
@@ -217,12 +229,7 @@ def run(ctx):
                             ctx.violation("range_has_mark", "range_has_mark disagrees with the marks of the nodes in the range", replay)
                         reqs.append({"op": "rangeHasMark", "doc": dj, "from": f, "to": t, "mark": info.mark(m)})
                         metas.append(("rangeHasMark", replay, bool(has)))
-    outs = ctx.driver.run(reqs) if reqs else []
-    for req, (op, replay, exp), out in zip(reqs, metas, outs):
-        ctx.count("model_requests")
-        ctx.count("op:" + op)
-        if out.get("ok", out) != exp:
-            ctx.mismatch(op, replay, exp, out)
+    flush()
     return ctx.finish(
         rule="a case is (schema, document, position[, second position]) over every pair-aligned position of each "
              "generated document, or a random range for the traversal interfaces; distinct by content")
